@@ -324,9 +324,11 @@ _RULE_ADDENDA = {
     "C02": " Plus foreign sharings whose (measurement, epoch) is the target's with a separator byte shifted across the boundary, near "
            "measurements differing beyond byte 64, large thresholds also 1025/1100, the adss-level relation C^D == M^R, and a bit-balance "
            "monitor over all interpolated coefficients of the run (n >= 512; value and value*2^192 mod p), and sharings dealt from a hostile "
-           "random source (1..100 sampler rejections in a row before a coefficient): exact degree, non-zero coefficients.",
+           "random source (1..100 sampler rejections in a row before a coefficient): exact degree, non-zero coefficients; secrets of 2..4 "
+           "elements at the Shamir level: no coefficient twice across the elements, one share against the elements' differences.",
     "C03": " Plus XOR combinations of the 32-byte report fields (C, D, tag, ...) tried as key and key seed, and an attacker who knows "
-           "part of the victim's measurement (prefix / suffix / all but one byte / case / padding) and submits t-1 or t reports of its own.",
+           "part of the victim's measurement (prefix / suffix / all but one byte / case / padding) and submits t-1 or t reports of its own; "
+           "payloads of 4..9 KiB; the XOR relation re-appearing beyond the first block (pairs) or between two stretches of one report.",
     "C04": " Plus separator-aware boundary shifts (| , : / ; space newline NUL - _ .), components swapped through LE/BE renderings, and "
            "generators built for another measurement, used, then re-targeted through their public field; text values differing only in "
            "white space at their edges, entering through From<&str>.",
@@ -335,13 +337,15 @@ _RULE_ADDENDA = {
     "C06": " Plus zero runs of 1..300 draws at the point draw, the public evaluator over polynomials of mixed degrees, iterator adaptors "
            "(nth, skip, step_by), an every-threshold sweep (1..320, thorough 1..1024), one dealer asked for 65 537..131 080 sequential "
            "shares, the thread-RNG convenience dealer with a run-global set of its coefficients, and rejection runs (1..100) in the recorded stream.",
-    "C07": " Plus a,b,a operation sequences (inversion, evaluator) and canonical elements of the band [2^128, p) through the share path.",
+    "C07": " Plus a,b,a operation sequences (inversion, evaluator), canonical elements of the band [2^128, p) through the share path, and "
+           "two-point interpolation over every pair of the boundary lattice.",
     "C08": " Plus canonical elements of the band [2^128, p) in every generated share and giant shares (43 689..100 000 elements).",
     "C09": " Plus authentic adss communes with non-standard message / coin lengths through group_shares, and Server::eval on a server "
            "whose key was imported and on eight servers with puncture histories (every one of the 256 tags asked for).",
     "C10": " Plus keys that travel between threads (every fifth early puncture of a long sequence on a fresh thread) and wrong input "
            "lengths 0,2,3,33,255..258,512,513,769,65 536,65 537.",
-    "C11": " Plus servers with 1..3 configured tags whose unregistered tags are punctured first, with repeated tags in the list.",
+    "C11": " Plus servers with 1..3 configured tags whose unregistered tags are punctured first, with repeated tags in the list; the "
+           "invariant 'a refused input is covered by no retained node', and a replica that runs ahead, is re-synced and catches up.",
     "C12": " Plus re-imported blinds and imports of inconsistent key states (afterwards the server is its old self or the imported state), "
            "and outputs / proofs of unpunctured tags re-checked along puncture histories.",
     "C13": " Plus completeness re-checked after puncture histories (lowest-first, middle, highest-first).",
@@ -351,7 +355,8 @@ _RULE_ADDENDA = {
     "C16": " Plus six refused collection shapes (no y, threshold 0, sub-threshold, ...) each followed at once by an honest recovery, "
            "an every-threshold sweep (t independent share() calls, t = 1..320, thorough 1..1024), and shares of the same sharing on chosen "
            "structured points incl. pairs congruent mod 2^128.",
-    "C17": " Plus empty vs NUL measurements and an every-threshold sweep (1..700, thorough 1..1024).",
+    "C17": " Plus empty vs NUL measurements, an every-threshold sweep (1..700, thorough 1..1024), and calls right after a call refused "
+           "for an undecodable line that followed t-1 good lines.",
     "C18": " Plus sibling measurements differing in trailing zeros, long aux, and a poisoned batch on the same server object before the "
            "honest runs; every small batch composition around the threshold ([t], [t-1], [t+1], [t,1], t singletons, [t,t], ...; t = 1..8); "
            "epochs with edge white space, multi-byte characters, 200+ bytes.",
@@ -362,8 +367,11 @@ for _k, _v in _RULE_ADDENDA.items():
 # minimum event counts of the later streams (a starved stream makes the run inconclusive)
 _MIN_ADDENDA = {
     "C01": {"threshold_sweep_scenarios": 300, "length_sweep_scenarios": 800, "replay_flood_scenarios": 4},
-    "C02": {"coefficient_bit_balance_checked": 2, "hostile_source_sharings": 300},
-    "C03": {"related_measurement_attacks": 2000},
+    "C02": {"coefficient_bit_balance_checked": 2, "hostile_source_sharings": 300, "multi_element_sharings": 300},
+    "C03": {"related_measurement_attacks": 2000, "pair_tails_scanned_for_resumed_reuse": 1000, "reports_scanned_for_internal_reuse": 200},
+    "C07": {"interpolate_lattice_pairs": 1000},
+    "C11": {"refusal_vs_material_checks": 10000, "replica_ahead_resyncs": 50},
+    "C17": {"refused_calls_before_honest": 500},
     "C06": {"long_iterators": 2, "std_dealer": 500, "threshold_sweep": 300},
     "C10": {"wrong_length_calls": 100},
     "C12": {"history_rounds": 1000},
